@@ -56,6 +56,7 @@ CONSTANTS Conns,       \* connection ids
           AllowRst,    \* target may reset the connection
           AllowTClose, \* target may close completely after its half-close (further writes to it vanish, then fail)
           AllowCRst,   \* client may reset the connection during the relay
+          AllowPause,  \* a receiver (target / client) may stop reading for any length of time (back-pressure)
           Planned,     \* TRUE (behaviour generation): each peer decides at the start how much it will send before it
                        \* half-closes, so that random walks do not end nearly every stream at its first step
           Timeout,     \* handshake read timeout (ticks)
@@ -101,6 +102,7 @@ InitConn(h, k, wc, wt) ==
     tq |-> <<>>, tfin |-> FALSE, trst |-> FALSE, tgt |-> "none", trd |-> FALSE,
     tcl |-> "no",   \* "closed": the target closed completely (the next write to it vanishes), "broken": writes now fail
     crst |-> FALSE, \* the client reset the connection
+    tpz |-> 0, cpz |-> 0,   \* > 0: the target / the client stopped reading at time (value - 1); writes to it block
 
     finT |-> FALSE, finC |-> FALSE,
     cnt |-> Stat(0, 0, 0, 0) ]
@@ -201,6 +203,16 @@ TargetRst(c) ==
   /\ Step(c, [st[c] EXCEPT !.trst = TRUE, !.tq = <<>>], ob[c], "TRst", 0)
 
 \* the target, having half-closed, closes completely: what the proxy still writes to it is lost, then refused
+\* Back-pressure: a receiver stops reading; once its buffers are full the proxy's write to it BLOCKS.  There is no timeout
+\* transition on a relay write: however long the receiver stays away, nothing happens to the stream (tcp.go:304, :316 are
+\* plain io.Copy), and when it comes back the copy goes on where it was.
+TargetPause(c)  == /\ AllowPause /\ st[c].tgt = "up" /\ st[c].tpz = 0 /\ ~st[c].trst /\ st[c].tcl = "no"
+                   /\ Step(c, [st[c] EXCEPT !.tpz = now + 1], ob[c], "TPause", 0)
+TargetResume(c) == /\ st[c].tpz > 0 /\ Step(c, [st[c] EXCEPT !.tpz = 0], ob[c], "TResume", 0)
+ClientPause(c)  == /\ AllowPause /\ st[c].tgt = "up" /\ st[c].cpz = 0 /\ ~st[c].crst /\ st[c].csock = "open"
+                   /\ Step(c, [st[c] EXCEPT !.cpz = now + 1], ob[c], "CPause", 0)
+ClientResume(c) == /\ st[c].cpz > 0 /\ Step(c, [st[c] EXCEPT !.cpz = 0], ob[c], "CResume", 0)
+
 TargetClose(c) ==
   /\ AllowTClose /\ st[c].tgt \in {"up", "closed"} /\ st[c].tfin /\ ~st[c].trst /\ st[c].tcl = "no"
   /\ Step(c, [st[c] EXCEPT !.tcl = "closed"], ob[c], "TClose", 0)
@@ -337,10 +349,11 @@ ToTarget(c, s, o, d, a) ==   \* tgtConn.Write of one decrypted chunk
 
 \* io.Copy(tgtConn, clientConn): one chunk.  Data coalesced with the address is still in the reader (leftover)
 C2T_Left(c) ==
-  /\ st[c].pa = "copy" /\ st[c].left # <<>>
+  /\ st[c].pa = "copy" /\ st[c].left # <<>> /\ st[c].tpz = 0
   /\ ToTarget(c, [st[c] EXCEPT !.left = <<>>], ob[c], Head(st[c].left), "TRecv")
 C2T_Copy(c) ==
   /\ st[c].pa = "copy" /\ st[c].left = <<>> /\ st[c].cq # <<>> /\ ~st[c].crst
+  /\ st[c].tpz = 0 \/ Head(st[c].cq).k # "data"       \* the write of a data chunk to a target that is not reading blocks
   /\ LET t == Head(st[c].cq)
          s == [st[c] EXCEPT !.cq = Tail(@), !.cnt.cp = @ + 1] IN
      IF t.k = "data" THEN ToTarget(c, s, ob[c], t.v, "TRecv")
@@ -380,7 +393,7 @@ FinToTarget(c) ==
 (* relay, handler goroutine target -> client  tcp.go:316-328                *)
 (* ------------------------------------------------------------------------ *)
 T2C_Copy(c) ==
-  /\ st[c].pc = "t2c" /\ ~st[c].trst /\ st[c].tq # <<>> /\ ~st[c].crst
+  /\ st[c].pc = "t2c" /\ ~st[c].trst /\ st[c].tq # <<>> /\ ~st[c].crst /\ st[c].cpz = 0
   /\ LET d == Head(st[c].tq) IN
      Step(c, [st[c] EXCEPT !.tq = Tail(@), !.cnt.tp = @ + 1, !.cnt.pc = @ + 1],
           [ob[c] EXCEPT !.clog = Append(@, d), !.wire.cr = @ + 1], "CRecv", d)
@@ -441,13 +454,14 @@ MainBlocked(c) ==
     [] s.pc = "backlog" -> ~(srv = "accept" /\ lst = "open")
     [] s.pc \in {"read50", "absorb", "readaddr"} -> ~Due(c) /\ s.cq = <<>> /\ ~s.cfin
     [] s.pc = "drainraw" -> s.cq = <<>> /\ ~s.cfin
-    [] s.pc = "t2c" -> ~s.trst /\ s.tq = <<>> /\ ~s.tfin
+    [] s.pc = "t2c" -> ~s.trst /\ ((s.tq = <<>> /\ ~s.tfin) \/ (s.tq # <<>> /\ s.cpz > 0 /\ ~s.crst))
     [] s.pc = "wait" -> s.pa # "send"
     [] OTHER -> FALSE
 AuxBlocked(c) ==
   LET s == st[c] IN
   CASE s.pa \in {"none", "done", "send"} -> TRUE
-    [] s.pa = "copy" -> s.left = <<>> /\ s.cq = <<>> /\ ~s.cfin /\ ~s.crst
+    [] s.pa = "copy" -> \/ (s.left = <<>> /\ s.cq = <<>> /\ ~s.cfin /\ ~s.crst)
+                        \/ (s.tpz > 0 /\ (s.left # <<>> \/ (s.cq # <<>> /\ Head(s.cq).k = "data" /\ ~s.crst)))
     [] s.pa = "drain" -> s.cq = <<>> /\ ~s.cfin /\ ~s.crst
     [] OTHER -> FALSE
 ServeBlocked == (srv = "accept" /\ lst = "open") \/ (srv = "wait" /\ Running # {}) \/ srv = "ret"
@@ -458,7 +472,8 @@ Tick == /\ now < MaxNow /\ Quiet
         /\ UNCHANGED <<st, ob, lst, srv>>
 
 (* ------------------------------------------------------------------------ *)
-EnvC(c) == \/ Connect(c) \/ ClientFin(c) \/ TargetSend(c) \/ TargetFin(c) \/ TargetRst(c) \/ TargetClose(c) \/ ClientRst(c)
+EnvC(c) == \/ TargetPause(c) \/ TargetResume(c) \/ ClientPause(c) \/ ClientResume(c)
+           \/ Connect(c) \/ ClientFin(c) \/ TargetSend(c) \/ TargetFin(c) \/ TargetRst(c) \/ TargetClose(c) \/ ClientRst(c)
            \/ \E tok \in NextToks(c) : ClientSend(c, tok)
 MainC(c) == \/ Accept(c) \/ Start(c) \/ Read50Take(c) \/ Read50Fail(c) \/ Auth(c) \/ AddAuthenticated(c)
             \/ AbsorbTake(c) \/ AbsorbEnd(c) \/ AddProbe(c)
@@ -483,6 +498,7 @@ Spec == Init /\ [][Next]_vars
 \* (connect, send FIN); they are not obliged to send data.
 Fair == /\ \A c \in Conns : WF_vars(MainC(c)) /\ WF_vars(AuxC(c))
         /\ \A c \in Conns : WF_vars(Connect(c)) /\ WF_vars(ClientFin(c)) /\ WF_vars(TargetFin(c))
+        /\ \A c \in Conns : WF_vars(TargetResume(c)) /\ WF_vars(ClientResume(c))
         /\ WF_vars(Serve) /\ WF_vars(Tick) /\ WF_vars(CloseListener)
 LiveSpec == Spec /\ Fair
 \* only the proxy's goroutines are fair: neither peer is obliged to do anything (half-close independence)
